@@ -518,7 +518,7 @@ func R04(pkgs ...string) Rule {
 			name := core.FuncName(fn)
 			c.Fn(name)
 			if len(fl.problems) == 0 {
-				c.Ok("R04", name, fn.Pos(), true, "%d lock operations; every return restores the entry state on all paths", fl.nOps)
+				c.Ok("R04", name+"/balanced", fn.Pos(), true, "%d lock operations; every return restores the entry state on all paths", fl.nOps)
 				continue
 			}
 			for _, pr := range fl.problems {
